@@ -139,6 +139,10 @@ func (e *DecodeError) Error() string {
 
 const maxDepth = 64
 
+// LaxIntegers makes the decoder accept any CR/LF-free text as the payload of
+// an integer line (framing-only judgement).
+var LaxIntegers = false
+
 // Decode reads exactly one value from b starting at off.
 func Decode(b []byte, off int) (Value, int, *DecodeError) {
 	return decode(b, off, 0)
@@ -158,7 +162,7 @@ func decode(b []byte, off int, depth int) (Value, int, *DecodeError) {
 		if err != nil {
 			return Value{}, off, err
 		}
-		if k == Integer {
+		if k == Integer && !LaxIntegers {
 			if !ValidInt(line) {
 				return Value{}, off, &DecodeError{Offset: off + 1, Msg: "malformed integer"}
 			}
